@@ -237,7 +237,10 @@ func (r *aofRun) stop() {
 
 // tickNames returns the tickers that exist in this configuration.
 func tickNames(c aofCfg) []string {
-	if c.Txn {
+	if c.Txn && c.Resume {
+		// (transactional mode with resuming on creates its checkpoint ticker with a period of a hundred
+		// years: there is nothing to fire. With resuming off the event is offered: on a tree that has no
+		// such ticker it is a no-op)
 		return []string{"batch", "keepalive"}
 	}
 	return []string{"batch", "keepalive", "cp"}
